@@ -438,11 +438,15 @@ func (n *Node) encodeFrame(fr frame.Frame) error {
 		_, isV2 := fr.(*frame.V2Frame)
 		msgRaw := mp.Write(fr.GetMessage(), isV2)
 
+		// the checksum must correspond to the payload that is actually written,
+		// which can differ from the received one (i.e. non-canonical encodings).
 		switch fr := fr.(type) {
 		case *frame.V1Frame:
 			fr.Message = msgRaw
+			fr.Checksum = fr.GenerateChecksum(mp.CRCExtra())
 		case *frame.V2Frame:
 			fr.Message = msgRaw
+			fr.Checksum = fr.GenerateChecksum(mp.CRCExtra())
 		}
 	}
 
